@@ -202,7 +202,8 @@ class ResultUser(Client):
         k = r.choice(["synth", "synth", "synth", "samp_synth", "sim", "analyzer",
                       "sampler"])
         if k == "synth":
-            nm = r.randint(1, 4)
+            # zero modes is a legal State (a fully heralded circuit has no others)
+            nm = r.choice([0, 1, 1, 2, 2, 3, 3, 4, 4])
             ins = self.rand_states(nm, r.randint(1, 4))
             outs = self.rand_states(nm, r.randint(1, 8))
             if r.random() < 0.1:
@@ -218,7 +219,7 @@ class ResultUser(Client):
                 o["np_states"] = True
             return o
         if k == "samp_synth":
-            nm = r.randint(1, 4)
+            nm = r.choice([0, 1, 1, 2, 2, 3, 3, 4, 4])
             o = {"op": "result_sampling_synth",
                  "outputs": self.rand_states(nm, r.randint(1, 8)),
                  "input": [1] * nm, "seed": r.randrange(1 << 30), "out": out}
@@ -319,6 +320,11 @@ class ResultMonitor(Monitor):
                     return [self.v({"kind": "lookup_keyerror"},
                                    f"[{i},{o}] not found through an equal State")]
                 v3 = arr[a, b]
+                if not all(isinstance(v, (int, float, complex, np.number))
+                           for v in (v1, v2)):
+                    return [self.v({"kind": "index_returns_non_value"},
+                                   f"r[{i},{o}] is a {type(v1).__name__}, "
+                                   f"r[i][o] a {type(v2).__name__}")]
                 if not (v1 == v2 == v3) and not (np.isnan(v1) and np.isnan(v3)):
                     return [self.v({"kind": "index_inconsistent"},
                                    f"r[{i},{o}]={v1}, r[i][o]={v2}, array={v3}")]
@@ -399,12 +405,12 @@ class ResultMonitor(Monitor):
             for t in all_out:
                 e = row.get(t, 0)
                 g = got.get(i, {}).get(t)
-                if g is None or abs(g - e) > 1e-12 * max(1, abs(e)):
+                if g is None or not abs(g - e) <= 1e-12 * max(1, abs(e)):
                     return [self.v({**sig, "kind": "mapped_value_wrong"},
                                    f"input {i} image {t}: expected {e}, got {g}")]
             tot_src = float(np.sum(src[meta["ins"].index(i), :]))
             tot_map = float(sum(got[i].values()))
-            if abs(tot_src - tot_map) > 1e-12 * max(1, abs(tot_src)):
+            if not abs(tot_src - tot_map) <= 1e-12 * max(1, abs(tot_src)):
                 return [self.v({**sig, "kind": "weight_not_conserved"},
                                f"input {i}: {tot_src} -> {tot_map}")]
         mm = {"rkind": "sim", "src": None, "ins": [tuple(x) for x in m.inputs],
@@ -440,7 +446,7 @@ class ResultMonitor(Monitor):
         g2 = as_dict(again)
         for i in want:
             for t in set(want[i]) | set(g2.get(i, {})):
-                if abs(want[i].get(t, 0) - g2.get(i, {}).get(t, 0)) > 1e-12:
+                if not abs(want[i].get(t, 0) - g2.get(i, {}).get(t, 0)) <= 1e-12:
                     return [self.v({**sig, "kind": "repeated_mapping_law"},
                                    f"input {i} image {t}")]
         w.probe("repeated_mapping_checked")
